@@ -152,6 +152,21 @@ func check(c *pbt.Case, r *pbt.R) {
 			r.Failf("an 'error types' line is not <type> (<family or *>::<extension>) of its layer", "line %q want %q\nspec %s", line, want, c.Spec)
 		}
 	}
+	// The same two listings against the case description: Go type and
+	// type-mark extension of every layer come from the model (checked
+	// against the built objects in C10), not from GetSafeDetails.
+	if vis, err := gen.Visible(c.Spec, gen.Build(c.Spec)); err == nil && len(vis) == len(nodes) {
+		for i := range nodes {
+			l := vis[i].Layer()
+			if line := lines[len(lines)-1-i]; !strings.Contains(line, l.Typ) {
+				r.Failf("a composition line does not name its layer's type", "line %q, model type %s\nspec %s", line, l.Typ, c.Spec)
+			}
+			line := types[len(types)-1-i]
+			if !strings.Contains(line, l.Typ+" (") || !strings.HasSuffix(line, "::"+l.Ext+")") {
+				r.Failf("an 'error types' line is not <type> (<family or *>::<extension>) of its layer", "line %q, model type %s extension %q\nspec %s", line, l.Typ, l.Ext, c.Spec)
+			}
+		}
+	}
 	if len(nodes) >= 3 && (len(withStack) >= 2 || len(withStack) == 0 || c.Spec.Has(gen.MultiKinds...)) {
 		r.NonTrivial()
 	}
